@@ -231,14 +231,20 @@ class GeminiServerProtocol(asyncio.Protocol):
                 # Return early - callback will handle the rest
                 return
             except RuntimeError:
-                # No event loop running (probably in tests) - skip middleware
-                logger.warning(
-                    "middleware_skipped",
+                # The chain could not be started (no running event loop, or the
+                # middleware object itself raised): an undecided request is refused,
+                # never handed to the handler
+                logger.error(
+                    "middleware_error",
                     client_ip=client_ip,
-                    reason="no_event_loop",
+                    reason="chain_not_started",
                 )
+                self._send_error_response(
+                    StatusCode.TEMPORARY_FAILURE, "Middleware error"
+                )
+                return
 
-        # No middleware or middleware skipped - route directly
+        # No middleware - route directly
         self._route_request(request, client_ip)
 
     def _send_response(self, response: GeminiResponse) -> None:
